@@ -360,6 +360,9 @@ int kx_net_dispatch(char **tok, int ntok, int *handled) {
 		KSI_CTX *c = kx_ctx(atoi(tok[1])); int rc; KSI_DataHash *h = hash_arg(c, tok[3], &rc); KSI_Signature *s = NULL; KSI_Signature **slot = kx_sigslot(atoi(tok[2])); const char *api = kx_kv("api");
 		if (!h) { kx_out(" stage=hash"); return rc; }
 		if (api && !strcmp(api, "create")) rc = KSI_createSignature(c, h, &s);
+		else if (api && !strcmp(api, "sigcreate")) rc = KSI_Signature_create(c, h, &s);                       /* the older names of the same calls */
+		else if (api && !strcmp(api, "createaggr")) rc = KSI_Signature_createAggregated(c, h, kx_kvu("lvl", 0), &s);
+		else if (api && !strcmp(api, "signwp")) rc = KSI_Signature_signWithPolicy(c, h, KSI_VERIFICATION_POLICY_INTERNAL, NULL, &s);
 		else if (kx_kv("ctxdoc")) {
 			/* ctxdoc=<imprint>|-: KSI_Signature_signAggregatedWithPolicy with a caller context that was used before: it still holds the document hash
 			 * (and level 0) of an earlier verification ('-': an initialised, otherwise empty context) */
@@ -467,6 +470,9 @@ bs_done:
 			rc = KSI_AggregationReq_new(c, &rq); if (rc) { KSI_DataHash_free(dh); return rc; }
 			KSI_AggregationReq_setRequestHash(rq, dh); if (atoi(tok[5]) > 0) { rc = KSI_Integer_new(c, strtoull(tok[5], NULL, 0), &lv); if (rc) { KSI_AggregationReq_free(rq); return rc; } KSI_AggregationReq_setRequestLevel(rq, lv); }
 			rc = KSI_AsyncAggregationHandle_new(c, rq, &h); if (rc) { KSI_AggregationReq_free(rq); return rc; } tag = tok[6]; }
+		else if (!strcmp(tok[3], "signh")) { /* signh <imprint> <level> <tag>: KSI_AsyncSigningHandle_new (hash and level given directly; the hash is the handle's only after success) */
+			KSI_DataHash *dh = hash_arg(c, tok[4], &rc); if (!dh) return rc;
+			rc = KSI_AsyncSigningHandle_new(c, dh, strtoull(tok[5], NULL, 0), &h); if (rc) { KSI_DataHash_free(dh); return rc; } tag = tok[6]; }
 		else if (!strcmp(tok[3], "ext")) { KSI_ExtendReq *rq = NULL; KSI_Integer *a = NULL, *p = NULL; KSI_ExtendReq_new(c, &rq); KSI_Integer_new(c, strtoull(tok[4], NULL, 0), &a); KSI_ExtendReq_setAggregationTime(rq, a);
 			if (strcmp(tok[5], "-")) { KSI_Integer_new(c, strtoull(tok[5], NULL, 0), &p); KSI_ExtendReq_setPublicationTime(rq, p); }
 			rc = KSI_AsyncExtendHandle_new(c, rq, &h); if (rc) { KSI_ExtendReq_free(rq); return rc; } tag = tok[6]; }
